@@ -51,8 +51,9 @@ MODULE = "BytecodeRun"
 # record fields
 F_ID, F_CODE, F_N, F_B, F_I, F_E, F_J, F_S, F_FS, F_U = range(10)
 
-CONCRETE_REPRS = ("bytes", "hex")
-SYMBOLIC_REPRS = ("chunks", "runs", "concat")
+CONCRETE_REPRS = ("bytes", "hex", "view0", "view")
+SYMBOLIC_REPRS = ("chunks", "runs", "concat", "viewchunks")
+JUNK = bytes([0x5B, 0x60, 0x5B, 0x5B, 0x7F, 0x5B, 0x00, 0x5B]) * 5
 
 
 def code_hex(code) -> str:
@@ -132,7 +133,26 @@ def build(code, rep: str, uid: str = "") -> Built:
         return Built(Contract.from_hexcode(bytes(code).hex()), {}, rep)
     if rep == "bv":
         return Built(Contract(z3.BitVecVal(int.from_bytes(bytes(code), "big"), 8 * n)) if n else Contract(b""), {}, rep)
+    if rep in ("view0", "view"):
+        # the code is a non-copying window of a longer buffer whose other bytes (JUMPDESTs, PUSHes) are not code:
+        # memory[0:n] returned by an init code, a slice of calldata
+        pre = b"" if rep == "view0" else JUNK[: 1 + n % 5]
+        buf = pre + bytes(code) + JUNK
+        return Built(Contract(ByteVec(buf).slice(len(pre), len(pre) + n)), {}, rep)
     sym = {}
+    if rep == "viewchunks":
+        # like "chunks", every concrete run being a window of a longer buffer
+        bv = ByteVec()
+        for start, s, bs in runs_of(code):
+            if s:
+                for k in range(len(bs)):
+                    x = z3.BitVec(f"c19_x{start + k}{uid}", 8)
+                    sym[start + k] = x
+                    bv.append(x)
+            else:
+                pre = b"" if start == 0 else JUNK[: 1 + start % 3]
+                bv.append(ByteVec(pre + bytes(bs) + JUNK).slice(len(pre), len(pre) + len(bs)))
+        return Built(Contract(bv), sym, rep)
     if rep == "chunks":
         bv = ByteVec()
         for start, s, bs in runs_of(code):
@@ -707,8 +727,11 @@ def with_representations(cases: list[JumpCase]) -> list[JumpCase]:
     for c in cases:
         if c.concrete:
             out.append(c)
+            # ... and once as a window of a longer buffer (every third program, alternating the two kinds of window)
+            if len(out) % 3 == 0:
+                out.append(JumpCase(c.name, c.form, list(c.code), c.target, c.jpc, c.want_marker, rep=("view0", "view")[len(out) % 2]))
         else:
-            for rep in ("chunks", "concat"):
+            for rep in ("chunks", "concat", "viewchunks"):
                 d = JumpCase(c.name, c.form, list(c.code), c.target, c.jpc, c.want_marker, rep=rep)
                 out.append(d)
     return out
@@ -817,7 +840,9 @@ def run_jump_cases(cases: list[JumpCase]) -> None:
     from .hrun import TARGET, Prog, Sym, run
 
     for c in cases:
-        if c.concrete:
+        if c.concrete and c.rep in ("view0", "view"):
+            code = build(c.code, c.rep).contract._code
+        elif c.concrete:
             c.rep = "bytes"
             code = bytes(c.code)
         else:
